@@ -113,6 +113,20 @@ Definition fib_model (mul withfiber : bool) (sa : option Z) (a : zfib) (b : zfib
                              (fimul_scalar a s) true a b
     end.
 
+(* chain observation, per step: [accumulator after the step; the object a0 then; every fiber operand
+   of the chain then] *)
+Definition V_operands (steps : list fstep) : V := Vl (fun c => V_fib (af_elems c)) (step_operands steps).
+
+Fixpoint chain_obs (ops : V) (same : bool) (a0cur : zfib) (acc : afib) (steps : list fstep) : list V :=
+  match steps with
+  | [] => []
+  | st :: steps' =>
+    let acc' := chain_step acc st in
+    let same' := same && is_inplace st in
+    let a0cur' := if same' then af_elems acc' else a0cur in
+    VL [V_fib (af_elems acc'); V_fib a0cur'; ops] :: chain_obs ops same' a0cur' acc' steps'
+  end.
+
 (* history observation: [a after the first step; a.getActive() then; the fiber observation of the
    second step, whose left operand is that a] *)
 Definition c11_model (c : c11_case) : V :=
@@ -127,9 +141,11 @@ Definition c11_model (c : c11_case) : V :=
     (* [accumulator after every step; getActive() and declared shape of the final one; second-step
        observation] *)
     let an := chain a0 steps in
-    VL [Vl (fun f => V_fib (af_elems f)) (chain_trace a0 steps);
+    VL [VL (chain_obs (V_operands steps) true (af_elems a0) a0 steps);
         Vp VZ VZ (get_active an); Vo VZ (af_shape an);
-        fib_model mul withfiber (af_shape an) (af_elems an) (af_elems b) s]
+        fib_model mul withfiber (af_shape an) (af_elems an) (af_elems b) s;
+        (* the object a0 + the first fiber operand, evaluated again at the very end *)
+        Vo (fun c => V_fib (fadd (chain_a0 true (af_elems a0) a0 steps) (af_elems c))) (re_operand steps)]
   end.
 
 (* ------------------------------------------------------------------ the property as a decision
@@ -275,12 +291,20 @@ Definition step_ok (sh : option Z) (st : fstep) (acc acc' : zfib) : bool :=
      | _ => fib_ok N acc' && forallb (fun x => Z.eqb (getz x acc') (step_val sh acc st x)) (zrange N)
      end.
 
-Fixpoint steps_ok (sh : option Z) (acc : zfib) (steps : list fstep) (obs : list V) : option zfib :=
+(* operands keep the values they were built with: after every step every fiber operand still
+   equals its literal, and the object a0 equals the accumulator while the accumulator IS that object
+   (only in-place steps so far), else what it held when the accumulator was rebound. *)
+Fixpoint steps_ok (sh : option Z) (ops : V) (same : bool) (a0cur acc : zfib) (steps : list fstep)
+         (obs : list V) : option (zfib * zfib) :=
   match steps, obs with
-  | [], [] => Some acc
-  | st :: steps', v :: obs' =>
+  | [], [] => Some (acc, a0cur)
+  | st :: steps', VL [v; va0; vops] :: obs' =>
     match unV_fib v with
-    | Some acc' => if step_ok sh st acc acc' then steps_ok sh acc' steps' obs' else None
+    | Some acc' =>
+      let same' := same && is_inplace st in
+      let a0cur' := if same' then acc' else a0cur in
+      if step_ok sh st acc acc' && V_eqb (V_fib a0cur') va0 && V_eqb ops vops
+      then steps_ok sh ops same' a0cur' acc' steps' obs' else None
     | None => None
     end
   | _, _ => None
@@ -289,9 +313,18 @@ Fixpoint steps_ok (sh : option Z) (acc : zfib) (steps : list fstep) (obs : list 
 Definition chain_spec (a0 : afib) (steps : list fstep) (mul withfiber : bool) (b : afib) (s : Z)
            (o : V) : bool :=
   match o with
-  | VL [VL accs; _; _; o2] =>
-    match steps_ok (af_shape a0) (af_elems a0) steps accs with
-    | Some an => fib_spec mul withfiber (af_shape a0) an (af_shape b) (af_elems b) s o2
+  | VL [VL accs; _; _; o2; vre] =>
+    match steps_ok (af_shape a0) (V_operands steps) true (af_elems a0) (af_elems a0) steps accs with
+    | Some (an, a0fin) =>
+      fib_spec mul withfiber (af_shape a0) an (af_shape b) (af_elems b) s o2
+      (* a0 + c evaluated again is still the elementwise sum of what a0 (rightfully) holds and c *)
+      && match re_operand steps, vre with
+         | None, VL [] => true
+         | Some c, VL [vr] => match unV_fib vr with
+                              | Some r => step_ok (af_shape a0) (SAddF c) a0fin r
+                              | None => false end
+         | _, _ => false
+         end
     | None => false
     end
   | _ => false
